@@ -19,3 +19,9 @@ Definition scale (w : num) (l : list num) : list num := map (fun v => v * w) l.
 Fixpoint d2 (a b : list num) : num := match a, b with x :: a', y :: b' => (x - y) * (x - y) + d2 a' b' | _, _ => of_Z 0 end.
 Fixpoint sumsq (m : list num) : num := match m with [] => of_Z 0 | x :: r => x * x + sumsq r end.
 Definition dist2 (a b : list num) (m : list num) : num := d2 a b + sumsq m.
+(* scipy.cluster.vq.vq as used by get_kmeans_clusters: each observation goes to the nearest centroid (the first one among equals) *)
+Fixpoint argmin_from (best : Z) (bd : num) (k : Z) (ds : list num) : Z :=
+  match ds with [] => best | d :: r => if ltb d bd then argmin_from k d (k + 1)%Z r else argmin_from best bd (k + 1)%Z r end.
+Definition nearest (cents : list (list num)) (x : list num) : Z :=
+  match map (d2 x) cents with [] => 0%Z | d :: r => argmin_from 0%Z d 1%Z r end.
+Definition vq_labels (cents : list (list num)) (obs : list (list num)) : list Z := map (fun x => (nearest cents x + 1)%Z) obs.    (* clusts += 1 *)
